@@ -58,8 +58,16 @@ def run_script(script, timeout=600, cfg_flags='', keep_dir=False):
                     break
                 obs.append(o)
             if r.returncode != 0 and stopped is None:
-                obs.append({'i': (obs[-1]['i'] + 1) if obs else start, 'crash': True, 'returncode': r.returncode,
-                            'stderr': r.stderr[-400:]})
+                ci = (obs[-1]['i'] + 1) if obs else start
+                if ci < n and script['ops'][ci].get('abort_at_event'):
+                    # the crash was requested by the script: carry on with the next process
+                    obs.append({'i': ci, 'aborted': True, 'op': script['ops'][ci]['op']})
+                    nxt = next((j for j in range(ci + 1, n) if script['ops'][j]['op'] == 'restart_process'), None)
+                    if nxt is None:
+                        return obs, None
+                    start = nxt
+                    continue
+                obs.append({'i': ci, 'crash': True, 'returncode': r.returncode, 'stderr': r.stderr[-400:]})
                 return obs, None
             if stopped is None:
                 break
